@@ -43,6 +43,7 @@ func runC10(c *core.Ctx) core.Meta {
 	prov := core.NewLocalProv(c)
 
 	checkPhysicalLayout(c, pint, prov)
+	checkLevelScanReachesRoot(c)
 	checkRoundRobinCursors(c, pint)
 
 	// ---------------- R10.17 the buddy allocator frees blocks by their start ----------------
